@@ -56,7 +56,15 @@ func runC16(r *ev.Run) {
 	var notExhaustive atomic.Bool
 	r.CasesParallel("stream", n, 16, func(ci int, rng *rand.Rand) {
 		kind := serKindNames[ci%len(serKindNames)]
-		st, err := buildSerState(rng, kind, ci%5 == 0)
+		var st *serState
+		var err error
+		if trainedKind := kind == "ivf" || kind == "pq" || kind == "ivfpq"; trainedKind && (ci/len(serKindNames))%4 == 1 {
+			// an untrained index is a legal (empty) state too: its stream carries the parameters but no centroids / codebooks
+			st, err = buildSerState(rng, kind, true, 1)
+			r.Count("streams:untrained-"+kind, 1)
+		} else {
+			st, err = buildSerState(rng, kind, ci%5 == 0)
+		}
 		if err != nil {
 			r.ViolationAt("stream", ci, "c16.setup", fmt.Sprintf("%s: %v", kind, err), nil)
 			return
